@@ -7,7 +7,7 @@ TRUSTED_BASE = [
     "axioms: at most propext, Classical.choice, Quot.sound (audited per theorem with #print axioms on every run); no sorry/admit/native_decide/bv_decide/own axioms (grep on every run)",
     "Mathlib v4.33.0 modules imported by proof files only (Mathlib.Logic.Relation and single tactic/list modules); model files are import-free",
     "the hand-written Lean model of the Rust code (lean/OHVerif/Model) - tied to /repo only by the differential correspondence check run on every invocation",
-    "the correspondence check itself: Rust harness generators and replay mode, the Rust side of the wire (printing cases; every line is re-printed by the Lean driver and must equal the canonical text, so the Rust printer is checked on every line, not trusted), catch_unwind, the dispatch of ops to relations in lean/OHVerif/Model/Dispatch.lean and Driver*.lean, and this Python driver. NOT trusted any more: the Lean side of the wire (total tokenizer/parser proved to invert the documented text format, Props/WireText: parseLineT_line; every decoder proved to invert its encoder and to accept only canonical encodings, Props/Wire: LawfulCodec/CanonicalCodec, enc_beq_iff) and the comparison relations: each comparator/oracle is proved to decide its specification relation (Props/Comparators, IsoCert, LaxDenote, LaxDenoteSet, C15Oracle, Oracles, C13Oracle, C16Oracle; and Props/HistoryOracle: runHistoryRen_true_iff - the history comparator of C09/C11 accepts exactly the traces that agree step by step up to the renumbering the quotient steps return, HistAgree)",
+    "the correspondence check itself: Rust harness generators and replay mode, the Rust side of the wire (printing cases; every line is re-printed by the Lean driver and must equal the canonical text, so the Rust printer is checked on every line, not trusted), catch_unwind, the dispatch of ops to relations in lean/OHVerif/Model/Dispatch.lean and Driver*.lean, and this Python driver. NOT trusted any more: the Lean side of the wire (total tokenizer/parser proved to invert the documented text format, Props/WireText: parseLineT_line; every decoder proved to invert its encoder and to accept only canonical encodings, Props/Wire: LawfulCodec/CanonicalCodec, enc_beq_iff) and the comparison relations: each comparator/oracle is proved to decide its specification relation (Props/Comparators, IsoCert, LaxDenote, LaxDenoteSet, C15Oracle, Oracles, C13Oracle, C16Oracle; and Props/HistoryOracle: runHistoryRen_true_iff - the history comparator of C09/C11 accepts exactly the traces that agree step by step up to the renumbering the quotient steps return, HistAgree; Props/HistoryRefl: runHistoryRen_refl - it accepts the model's own trace of EVERY history; Props/C14RefOracle: refRevDeriv_agrees_model - the dual-number reference derivative of the optic.deriv op returns exactly the model's (f x, J^T dy), so it cannot reject the model's answer)",
     "rustc/cargo; usize modelled as unbounded Nat (no overflow above 2^64); Clone/PartialEq on labels as Lean equality",
     "modelled, not verified: std's HashMap and sort; the Rust union-find (rank, path compression, HashMap renumbering) and HashMap sparse_bincount have a line-by-line model proved equal to the canonical-output algorithms the other theorems use (Props/C07UnionFind)",
     "serde/serde_json (C11's JSON clause): the documented text is a model function proved lossless (Props/C11Json); that the derives print it is compared on every case",
@@ -37,7 +37,7 @@ READY = {
     "OHVerif.Props.C14Poly", "OHVerif.Props.C07UnionFind", "OHVerif.Props.IsoCert",
     "OHVerif.Props.C11Json", "OHVerif.Props.C08Iter", "OHVerif.Props.Comparators",
     "OHVerif.Props.LaxDenote", "OHVerif.Props.C15Oracle", "OHVerif.Props.Oracles", "OHVerif.Props.C13Oracle", "OHVerif.Props.C16Oracle", "OHVerif.Props.LaxDenoteSet",
-    "OHVerif.Props.Wire", "OHVerif.Props.WireText", "OHVerif.Props.HistoryOracle",
+    "OHVerif.Props.Wire", "OHVerif.Props.WireText", "OHVerif.Props.HistoryOracle", "OHVerif.Props.HistoryRefl", "OHVerif.Props.C14RefOracle",
 }
 
 def _mods(*names):
@@ -56,13 +56,13 @@ PROPS = {
     "C06": dict(modules=_mods("OHVerif.Props.C06"), groups=[("ff", 3000)], deps=[("prim", 500)]),
     "C07": dict(modules=_mods("OHVerif.Props.C07", "OHVerif.Lemmas.VecBackend", "OHVerif.Props.C07UnionFind", "OHVerif.Props.Comparators"), groups=[("prim", 3000)], deps=[], release=True),
     "C08": dict(modules=_mods("OHVerif.Props.C08", "OHVerif.Props.C08Iter"), groups=[("ic", 3000)], deps=[("ff", 500), ("prim", 500)]),
-    "C09": dict(modules=_mods("OHVerif.Props.C09", "OHVerif.Props.Comparators", "OHVerif.Props.LaxDenoteSet", "OHVerif.Props.HistoryOracle"), groups=[("lax.quot", 3000)], deps=[]),
+    "C09": dict(modules=_mods("OHVerif.Props.C09", "OHVerif.Props.Comparators", "OHVerif.Props.LaxDenoteSet", "OHVerif.Props.HistoryOracle", "OHVerif.Props.HistoryRefl"), groups=[("lax.quot", 3000)], deps=[]),
     "C10": dict(modules=_mods("OHVerif.Props.C10", "OHVerif.Props.C10Iso", "OHVerif.Props.IsoCert", "OHVerif.Props.Comparators", "OHVerif.Props.LaxDenote", "OHVerif.Props.LaxDenoteSet"), groups=[("lax.cat", 2500), ("lawlax", 1500)], deps=[("oh", 400)]),
-    "C11": dict(modules=_mods("OHVerif.Props.C11", "OHVerif.Props.C11Json", "OHVerif.Props.HistoryOracle"), groups=[("lax.edit", 3000), ("lax.cat", 1500)], deps=[],
+    "C11": dict(modules=_mods("OHVerif.Props.C11", "OHVerif.Props.C11Json", "OHVerif.Props.HistoryOracle", "OHVerif.Props.HistoryRefl"), groups=[("lax.edit", 3000), ("lax.cat", 1500)], deps=[],
                 missing=["JSON clause: the documented text format is a model function (Json.render) proved lossless and canonical (parse_render, parse_iff); that serde's derives print exactly this text is decided by correspondence (serde_json itself is outside the model) and the Rust round trip is executed on every case"]),
     "C12": dict(modules=_mods("OHVerif.Props.C12", "OHVerif.Props.C12Type", "OHVerif.Props.C12Subst", "OHVerif.Props.IsoCert", "OHVerif.Props.LaxDenote"), groups=[("dynfunctor", 1500), ("functor", 800)], deps=[("oh", 400), ("ff", 300)]),
     "C13": dict(modules=_mods("OHVerif.Props.C13", "OHVerif.Props.C13Native", "OHVerif.Props.IsoCert", "OHVerif.Props.LaxDenote", "OHVerif.Props.C13Oracle"), groups=[("dynfunctor", 2500)], deps=[("lax.cat", 400)]),
-    "C14": dict(modules=_mods("OHVerif.Props.C14", "OHVerif.Props.C14Optic", "OHVerif.Props.C14Deriv", "OHVerif.Props.C14Poly"), groups=[("optic", 4000)], deps=[("dynfunctor", 300), ("eval", 300)]),
+    "C14": dict(modules=_mods("OHVerif.Props.C14", "OHVerif.Props.C14Optic", "OHVerif.Props.C14Deriv", "OHVerif.Props.C14Poly", "OHVerif.Props.C14RefOracle"), groups=[("optic", 4000)], deps=[("dynfunctor", 300), ("eval", 300)]),
     "C15": dict(modules=_mods("OHVerif.Props.C15", "OHVerif.Lemmas.Kahn", "OHVerif.Props.C15Oracle"), groups=[("graph", 3000)], deps=[("ic", 400), ("prim", 300)]),
     "C16": dict(modules=_mods("OHVerif.Props.C16", "OHVerif.Props.C16Oracle"), groups=[("eval", 3000)], deps=[("graph", 600)]),
     "C17": dict(modules=_mods("OHVerif.Props.C17"), groups=[("oh", 2000), ("hg", 1500), ("graph", 800)], deps=[("prim", 300)], release=True),
